@@ -93,7 +93,8 @@ theorem append_merge {K' : List HTree} {m : Nat} {ps s : Str} {mk : List HTree}
   have h3 : g.textOf n = some s := by rw [w.textOf_n]
   have h4 : g.addConsolidate n (some m) none =
       (g.withRoots (R ++ [plug fs (.node c vc (K' ++ [.node m (.text (ps ++ s)) mk]))]), true) := by
-    unfold Forest.addConsolidate
+    rw [Forest.addConsolidate_eq_old_of_ne (by simpa using Ne.symm w.descend.nc) (by simp)]
+    unfold Forest.addConsolidateOld
     simp only [hc, Bool.not_true, Bool.false_eq_true, if_false, h3, h2]
     rw [w.setValue_last, (w.reval_last _).spliceOut_n]
     rfl
